@@ -38,6 +38,7 @@ class World:
         self.sim_seconds = 0.0
         self.n_invocations = 0
         self.latest = {}  # M_truth: target name -> id of the latest job accepted from a gwf invocation
+        self.latest_gen = {}  # local pool only: generation of the pool that issued that id
         self.k3_lost = set()  # names whose accepted job id gwf could not have seen (kill inside submission)
         self.m_hash = {}  # M_hash
         self.hashing = bool(knobs.get("hashing"))
@@ -152,6 +153,8 @@ class World:
         if prop in self.props and self.pending_violation is None:
             detail = detail.replace(self.base, "$BASE")  # the scratch path contains the worker's pid
             facets.setdefault("backend", self.backend)
+            if self.local is not None and self.local.generation > 1:
+                facets.setdefault("pool_restarted", True)
             self.pending_violation = Violation(prop, rule, detail, facets)
             self.trace.log("violation", prop=prop, rule=rule, detail=detail)
 
@@ -178,7 +181,7 @@ class World:
         k = self.seam_count
         self.trace.log("seam", k=k, kind=kind, detail=detail)
         if self.between_seams is not None:
-            self.between_seams()
+            self.between_seams(kind)
         if self.kill_at is not None and self.kill_at == (k, "before"):
             self.frozen = True
             self.fault("kill_before_" + kind.split(":")[0])
@@ -275,24 +278,44 @@ class World:
         producers = []
         if t is not None:
             for d in self.model.deps(j.name):
-                pj = self.latest.get(d)
+                pj = self.jref(d)
                 if pj is not None and self.job_phase(pj) in ("pending", "running"):
                     producers.append(pj)
         self.job_model[j.id] = dict(outputs=outs, name=j.name, producers=producers)
         self.latest[j.name] = j.id
+        if self.local is not None:
+            self.latest_gen[j.name] = self.local.generation
         self.accepted_now.append((j.name, j.id, list(j.deps)))
 
-    def job_phase(self, jid):
-        if self.cluster is not None:
-            j = self.cluster.jobs.get(jid)
-            return j.phase if j is not None else None
-        return self.local.phase(jid) if self.local is not None else None
+    def jref(self, name):
+        """Reference to the latest job of a target: the id, or (pool generation, id) for the local pool
+        (a restarted pool issues the same ids again)."""
+        jid = self.latest.get(name)
+        if jid is None:
+            return None
+        if self.local is not None:
+            return (self.latest_gen.get(name, self.local.generation), jid)
+        return jid
 
-    def job_result(self, jid):
+    def job_phase(self, ref):
         if self.cluster is not None:
-            j = self.cluster.jobs.get(jid)
+            j = self.cluster.jobs.get(ref)
+            return j.phase if j is not None else None
+        if self.local is None:
+            return None
+        if not isinstance(ref, tuple):
+            ref = (self.local.generation, ref)
+        return self.local.phase(ref)
+
+    def job_result(self, ref):
+        if self.cluster is not None:
+            j = self.cluster.jobs.get(ref)
             return j.result if j is not None else None
-        return self.local.result(jid) if self.local is not None else None
+        if self.local is None:
+            return None
+        if not isinstance(ref, tuple):
+            ref = (self.local.generation, ref)
+        return self.local.result(ref)
 
     def _note_start(self, j):
         """C07 invariant at every job start: every job that was producing the target's inputs when it
@@ -350,7 +373,7 @@ class World:
             return "none"
         if self.cluster is not None:
             return self.cluster.observable(jid)
-        return self.local.observable(jid)
+        return self.local.observable(self.jref(name))
 
     def m_status(self):
         """name -> status string, or None where the statement does not pin it (unpinned codes)."""
